@@ -197,7 +197,8 @@ fn parse_v_text_directive(jsx_attr: &JSXAttr) -> Directive {
                 (**expr).clone()
             }
         }
-        None => {
+        // no value, or a JSX element / fragment as the value
+        _ => {
             HANDLER.with(|handler| {
                 handler.span_err(
                     jsx_attr.span,
@@ -209,7 +210,6 @@ fn parse_v_text_directive(jsx_attr: &JSXAttr) -> Directive {
                 value: true,
             }))
         }
-        _ => unreachable!(),
     };
 
     Directive::Text(expr)
@@ -234,7 +234,8 @@ fn parse_v_html_directive(jsx_attr: &JSXAttr) -> Directive {
                 (**expr).clone()
             }
         }
-        None => {
+        // no value, or a JSX element / fragment as the value
+        _ => {
             HANDLER.with(|handler| {
                 handler.span_err(
                     jsx_attr.span,
@@ -246,7 +247,6 @@ fn parse_v_html_directive(jsx_attr: &JSXAttr) -> Directive {
                 value: true,
             }))
         }
-        _ => unreachable!(),
     };
 
     Directive::Html(expr)
